@@ -1886,15 +1886,20 @@ struct Value {
             groupedValue.reset();
             groupedValue.setTypeToObject();
 
-            if ((item_ != nullptr) && item_->isObject() && item_->object_.GetKeyIndex(grouped_key_index, key, length)) {
+            // An item can be a pointer to the object, like the set itself can be one.
+            const Value *obj = ((item_ != nullptr) ? item_->pointee() : nullptr);
+
+            if ((obj != nullptr) && obj->isObject() && obj->object_.GetKeyIndex(grouped_key_index, key, length)) {
                 const Value *end = array_.End();
 
                 while (item_ != end) {
-                    if ((item_ != nullptr) && item_->isObject()) {
+                    obj = item_->pointee();
+
+                    if (obj->isObject()) {
                         bool found = false; // The grouping key can sit at any position in each object.
 
-                        const VItem *obj_item = item_->object_.First();
-                        const VItem *obj_end  = item_->object_.End();
+                        const VItem *obj_item = obj->object_.First();
+                        const VItem *obj_end  = obj->object_.End();
 
                         while (obj_item != obj_end) {
                             // Removed members (and members reset to undefined) are skipped.
@@ -2195,6 +2200,17 @@ struct Value {
 
     inline void setTypeToPtrValue() noexcept {
         setType(ValueType::ValuePtr);
+    }
+
+    // The value itself, or what a chain of pointers to values ends in.
+    inline const Value *pointee() const noexcept {
+        const Value *val = this;
+
+        while (val->Type() == ValueType::ValuePtr) {
+            val = val->value_;
+        }
+
+        return val;
     }
 
     void reset() noexcept {
